@@ -44,10 +44,15 @@ def run_fuzz(chk, target, runs, seeds_kind=None, max_len=16384, jobs=16):
         if m:
             execs += int(m[-1])
     crashes = sorted(glob.glob(os.path.join(art, '*')))
+    not_reproduced = 0
     for c in crashes[:20]:
         rc, out, err = R.run_one(exe, [c], env=None, wall=120)
         kind, site = R.parse_report(err)
         mo = re.search(r'FUZZ-ORACLE ([\w-]+)', err)
+        if rc == 0 and not kind and not mo:
+            # slow-unit-* files and time-outs that do not reproduce when the input runs alone: the wall clock of a loaded machine, not a finding
+            not_reproduced += 1
+            continue
         if mo:
             key = 'fuzz:oracle:' + mo.group(1)
         elif kind:
@@ -63,6 +68,6 @@ def run_fuzz(chk, target, runs, seeds_kind=None, max_len=16384, jobs=16):
         shutil.copy(c, dst)
         chk.violation(key, 'libFuzzer artifact %s' % dst, dict(harness=target, flavour='fuzz', artifact=dst, report=err[-4000:]))
     ncorp = len(os.listdir(corp))
-    chk.coverage['fuzz_' + target] = dict(executions=execs, seeds=nseeds, corpus_units_after=ncorp, artifacts=len(crashes), runs_requested=runs)
+    chk.coverage['fuzz_' + target] = dict(executions=execs, seeds=nseeds, corpus_units_after=ncorp, artifacts=len(crashes), artifacts_not_reproduced_alone=not_reproduced, runs_requested=runs)
     shutil.rmtree(root, ignore_errors=True)
     return execs
